@@ -60,7 +60,7 @@ ROUNDINGS = {"ROUND_CEILING": "ceiling", "ROUND_FLOOR": "floor", "ROUND_HALF_UP"
 # type tags: Dec ODec S OS B Int OInt Map OMap NoneT Unit, ("Dict", T), ("List", T)
 LEAN_TYPE = {"Dec": "Rat", "ODec": "Option Rat", "S": "Str", "OS": "Option Str", "B": "Bool", "Int": "Int",
              "OInt": "Option Int", "Map": "List (Str × Str)", "OMap": "Option (List (Str × Str))", "Unit": "Unit",
-             "J": "Py.J", "F": "Option Rat"}
+             "J": "Py.J", "F": "Option Rat", "FV": "Py.FVal", "Self": "Self"}
 
 
 def lean_type(t):
@@ -493,6 +493,11 @@ class ClassTranslator:
             pre += p
             pk, tk, yk = self.ex(node.slice, env)
             pre += pk
+            if isinstance(ty, tuple) and ty[0] == "List" and yk == "Int" and isinstance(node.slice, ast.Constant) \
+                    and node.slice.value >= 0:
+                v = self.fresh()
+                pre.append("let %s ← Py.listAt %s %d" % (v, paren(t), node.slice.value))
+                return pre, v, ty[1]
             if ty == "S" and yk == "Int":
                 v = self.fresh()
                 if isinstance(node.slice, ast.Constant) and node.slice.value >= 0:
@@ -652,6 +657,10 @@ class ClassTranslator:
                 a, b = tl, "none"
             elif yl == "ODec" and yr == "ODec":
                 a, b = tl, tr
+            elif yl in ("Dec", "ODec") and yr == "FV":
+                # float(Decimal score) == float(text): binary64 equality of a one-decimal score with a parsed literal
+                t = "(Py.scoreEq %s %s = true)" % (self.coerce(tl, yl, "ODec") if yl == "Dec" else tl, tr)
+                return pre, ("(¬ %s)" % t if isinstance(op, ast.NotEq) else t), "P"
             else:
                 raise Unsupported("== between %s and %s" % (yl, yr))
             t = "(%s = %s)" % (a, b)
@@ -692,6 +701,21 @@ class ClassTranslator:
                 raise Unsupported("D(non-literal)")
             if f.id == "float" and len(node.args) == 1 and isinstance(node.args[0], ast.Constant) and node.args[0].value == "nan":
                 return pre, "(none : Option Rat)", "F"
+            if f.id == "float" and len(node.args) == 1 and not node.keywords:
+                p0, t0, y0 = self.ex(node.args[0], env)
+                if y0 == "S":
+                    pre += p0
+                    v = self.fresh()
+                    pre.append("let %s ← Py.float %s" % (v, paren(t0)))      # the literal grammar of float(): ValueError otherwise
+                    return pre, v, "FV"
+            if f.id == "cls" and env.get("cls") == "Cls" and len(node.args) == 1 and not node.keywords:
+                p0, t0, y0 = self.ex(node.args[0], env)
+                pre += p0
+                if y0 != "S" or not ctx_has_construct(self):
+                    raise Unsupported("cls(%s)" % (y0,))
+                v = self.fresh("o")
+                pre.append("let %s ← construct %s" % (v, paren(t0)))
+                return pre, v, "Self"
             if f.id == "int" and len(node.args) == 1 and not node.keywords:
                 p, t, ty = self.ex(node.args[0], env)
                 pre += p
@@ -756,6 +780,9 @@ class ClassTranslator:
                     return pre, "(Py.strOInt (some %s))" % t, "S"
                 if ty == "S":
                     return pre, t, "S"
+                if ty in ("Dec", "ODec"):
+                    # str(float): the scores are one-decimal values (C09), printed as "7.5" / "10.0"; None prints "None"
+                    return pre, "(Py.strScore %s)" % (self.coerce(t, ty, "ODec") if ty == "Dec" else t), "S"
                 raise Unsupported("str(%s)" % (ty,))
             if f.id == "float" and len(node.args) == 1 and not node.keywords and False:
                 pass
@@ -891,6 +918,22 @@ class ClassTranslator:
                 if ty != "S":
                     raise Unsupported("replace on %s" % (ty,))
                 return pre, "(replaceChar %s %s %s)" % (lean_char(node.args[0].value), lean_char(node.args[1].value), t), "S"
+            if f.attr == "split" and len(node.args) == 2 and not node.keywords and isinstance(node.args[0], ast.Constant) \
+                    and isinstance(node.args[0].value, str) and len(node.args[0].value) == 1 \
+                    and isinstance(node.args[1], ast.Constant) and node.args[1].value == 1:
+                p, t, ty = self.ex(f.value, env)
+                pre += p
+                if ty != "S":
+                    raise Unsupported("split on %s" % (ty,))
+                return pre, "(Py.split1 %s %s)" % (lean_char(node.args[0].value), paren(t)), ("List", "S")
+            if isinstance(f.value, ast.Name) and env.get(f.value.id) == "Self" and f.attr in self.methods:
+                # a method of another object of this class (the object `from_rh_vector` has just built)
+                sig = self.sigs[f.attr]
+                if sig["mutates"] or sig["ret"] is None or sig["params"]:
+                    raise Unsupported("method %s on another object" % f.attr)
+                v = self.fresh()
+                pre.append("let %s ← %s %s" % (v, mangle(f.attr), mangle(f.value.id)))
+                return pre, v, sig["ret"]
             if f.attr in ("startswith", "endswith", "split") and len(node.args) == 1 and not node.keywords \
                     and isinstance(node.args[0], ast.Constant) and isinstance(node.args[0].value, str) and node.args[0].value:
                 p, t, ty = self.ex(f.value, env)
@@ -1488,6 +1531,26 @@ class ClassTranslator:
         params = " ".join("(%s : %s)" % (mangle(pn), lean_type(pt)) for pn, pt, _ in sig["params"])
         return "def %s (self : Self) %s: %s := do\n%s\n" % (mangle(lean_name or name), params + (" " if params else ""), rt, ind(lines, 1))
 
+    def emit_classmethod(self, name):
+        """a classmethod that builds an object (`cls(...)`) and returns it: no receiver, result type Self"""
+        fn = self.methods[name]
+        if not (fn.decorator_list and isinstance(fn.decorator_list[0], ast.Name) and fn.decorator_list[0].id == "classmethod"):
+            raise Unsupported("%s is not a classmethod" % name)
+        env = {"cls": "Cls"}
+        params = []
+        for a in fn.args.args[1:]:
+            pt = self.param_types.get(a.arg)
+            if pt is None:
+                raise Unsupported("parameter %s of unknown type" % a.arg)
+            env[a.arg] = pt
+            params.append("(%s : %s)" % (mangle(a.arg), lean_type(pt)))
+        ctx = {"mut": False, "rets": [], "fn": fn}
+        self.tmp = 0
+        lines, _, term = self.blk(fn.body, env, ctx)
+        if not term or set(ctx["rets"]) != {"Self"}:
+            raise Unsupported("classmethod %s returns %s" % (name, set(ctx["rets"])))
+        return "def %s %s : Py.M Self := do\n%s\n" % (mangle(name), " ".join(params), ind(lines, 1))
+
     def self_structure(self):
         fields = []
         for a, t in self.attr_types.items():
@@ -1563,6 +1626,10 @@ def exc_of(node):
     if node is None:
         raise Unsupported("bare raise")
     return "other"
+
+
+def ctx_has_construct(tr):
+    return getattr(tr, "have_construct", False)
 
 
 def is_self(n):
@@ -1675,8 +1742,15 @@ def translate(repo, pyfile, cls, tables_ns, out_ns, consts, param_types, func_na
             parts.append("/-- `CVSSn(vector)`: a fresh object run through `__init__` -/\n"
                          "def construct (vector : Str) : Py.M Self := init default vector\n")
             done.append("__init__")
+            tr.have_construct = True
         except (Unsupported, KeyError, AttributeError, IndexError, TypeError, ValueError) as ex:
             failed.append({"name": "__init__", "error": "%s: %s" % (type(ex).__name__, ex)})
+        for cm in ("from_rh_vector",):
+            try:
+                parts.append(tr.emit_classmethod(cm))
+                done.append(cm)
+            except (Unsupported, KeyError, AttributeError, IndexError, TypeError, ValueError) as ex:
+                failed.append({"name": cm, "error": "%s: %s" % (type(ex).__name__, ex)})
     if extra:
         for nm, fn in extra:
             try:
@@ -1746,7 +1820,7 @@ def gen_all(repo, out):
          ["parse_vector", "check_mandatory", "handle_scope", "add_missing_optional", "get_value", "get_value_description", "compute_isc_base", "compute_isc",
           "compute_esc", "compute_base_score", "compute_temporal_score", "compute_modified_isc_base",
           "compute_modified_isc_30", "compute_modified_isc", "compute_modified_esc", "compute_environmental_score",
-          "clean_vector", "severities", "temporal_vector", "environmental_vector", "as_json", "scores"],
+          "clean_vector", "severities", "temporal_vector", "environmental_vector", "as_json", "scores", "rh_vector"],
          "check_mandatory", None),
         ("Code2", "cvss2.py", "CVSS2", "V2",
          {"METRICS_VALUES": ("Gen.V2.values", D2), "METRICS_VALUE_NAMES": ("Gen.V2.valueNames", N2),
@@ -1757,7 +1831,7 @@ def gen_all(repo, out):
          ["round_to_1_decimal"],
          ["parse_vector", "check_mandatory", "get_value", "get_value_description", "impact_equation", "adjusted_impact_equation", "base_score_equation",
           "compute_base_score", "temporal_score_equation", "compute_temporal_score", "compute_environmental_score",
-          "clean_vector", "severities", "temporal_vector", "environmental_vector", "as_json", "scores"],
+          "clean_vector", "severities", "temporal_vector", "environmental_vector", "as_json", "scores", "rh_vector"],
          "check_mandatory", None),
         ("Code4", "cvss4.py", "CVSS4", "V4",
          {"METRICS_VALUE_NAMES": ("Gen.V4.valueNames", N2), "METRICS_MANDATORY": ("Gen.V4.mandatory", LS),
@@ -1768,7 +1842,7 @@ def gen_all(repo, out):
           "x": "F"},
          ["final_rounding"],
          ["parse_vector", "check_mandatory", "add_missing_optional", "m", "macroVector", "get_value_description", "clean_vector",
-          "compute_base_score", "compute_severity", "as_json", "scores", "severities"],
+          "compute_base_score", "compute_severity", "as_json", "scores", "severities", "rh_vector"],
          None, [("levels", v4_levels)]),
     ]
     changed = []
